@@ -67,7 +67,7 @@ func propsOfObligation(name string) []string {
 	if len(set) == 0 {
 		set["C01"] = true
 	}
-	if strings.HasPrefix(kind, "frame[") || strings.HasPrefix(kind, "frame.input") {
+	if strings.HasPrefix(kind, "frame[") || strings.HasPrefix(kind, "frame.input") || strings.HasPrefix(kind, "slice.stale") {
 		set["C04"] = true
 	}
 	if strings.HasPrefix(kind, "lock") {
@@ -385,7 +385,7 @@ func universalKind(name string) bool {
 	// #frame[k]: a heap store outside the assigns clause of the function under verification (raised
 	// under the name of a helper when the store sits in one that is executed in place): callers rely
 	// on that clause, so it is claimed wherever the store is
-	return strings.Contains(name, "#frame.input") || strings.Contains(name, "#lock") || strings.Contains(name, "#frame[")
+	return strings.Contains(name, "#frame.input") || strings.Contains(name, "#lock") || strings.Contains(name, "#frame[") || strings.Contains(name, "#slice.stale")
 }
 
 // loadFactor is max(1, 1-minute load average / cores), capped at 6.
